@@ -54,6 +54,24 @@ def rdmPropagateDeph (gen : α → MatD α n n → MatD α n n) (E : Mat α n) (
       | k + 1, x => inner k (dephase E (taylorStep gen madd (dt / (Nref : α)) L x))
     ρ :: rdmPropagateDeph gen E dt L Nref nt (inner Nref ρ)
 
+/-- elementwise factor of the Gaussian pure dephasing after the refined step number `s` (counted from the start of the
+time axis): `expo · exp(−t0·tt)` with `tt = s·dtd`, i.e. `E0 ∘ Q^s` for `E0 = exp(−γ dtd²/2)` (times the factor of the
+axis start), `Q = exp(−γ dtd²)` -/
+def gaussFactor (E0 Q : Mat α n) : Nat → Mat α n
+  | 0 => E0
+  | s + 1 => fun a b => gaussFactor E0 Q s a b * Q a b
+
+/-- Gaussian pure dephasing: the time `tt = tNt + jj·dtd` of every refined step enters the factor; `s0` is the number of
+refined steps before the current stored point -/
+def rdmPropagateDephG (gen : α → MatD α n n → MatD α n n) (E0 Q : Mat α n) (dt : α) (L Nref : Nat) :
+    Nat → Nat → MatD α n n → List (MatD α n n)
+  | 0, _, _ => []
+  | nt + 1, s0, ρ =>
+    let rec inner : Nat → Nat → MatD α n n → MatD α n n
+      | 0, _, x => x
+      | k + 1, s, x => inner k (s + 1) (dephase (gaussFactor E0 Q s) (taylorStep gen madd (dt / (Nref : α)) L x))
+    ρ :: rdmPropagateDephG gen E0 Q dt L Nref nt (s0 + Nref) (inner Nref s0 ρ)
+
 /-- `StateVectorPropagator._propagate_short_exp`: `psi1 = -1j*(dt/ll)*dot(HH, psi1)` -/
 def svGen (ii : α) (H : Mat α n) (c : α) (ψ : VecD α n) : VecD α n :=
   VecD.tab (fun a => -((ii * c) * matVec H ψ.fn a))
